@@ -387,11 +387,11 @@ fn request_calls(script: VecDeque<Ev>, calls: &str) -> String {
     let mut bd = h3::client::builder();
     bd.send_grease(false);
     let mut f: std::pin::Pin<Box<dyn std::future::Future<Output = _>>> = Box::pin(bd.build::<_, _, Bytes>(conn));
-    let Poll::Ready(Ok((_driver, mut snd))) = crate::sim::poll_once(&mut f) else { return "setup-failed".into() };
+    let Poll::Ready(Ok((_driver, mut snd))) = crate::sim::poll_settled(&mut f) else { return "setup-failed".into() };
     let req = http::Request::builder().method("GET").uri("https://a/").body(()).unwrap();
     let mut rs = {
         let mut g: std::pin::Pin<Box<dyn std::future::Future<Output = _>>> = Box::pin(snd.send_request(req));
-        match crate::sim::poll_once(&mut g) {
+        match crate::sim::poll_settled(&mut g) {
             Poll::Ready(Ok(s)) => Rs::Whole(s),
             _ => return "setup-failed".into(),
         }
